@@ -22,11 +22,14 @@ Local Open Scope nat_scope.
      from_triplets  stores the duplicates of a position in the order of the INPUT list (stable sort)    from_triplets_duplicates
      insert         overwrites the first stored duplicate, leaves the others; an absent position is appended   insert_with_duplicates
      transpose      keeps the duplicates of every position in their order (stable counting sort)        transpose_duplicates
+                    -- it IS from_triplets of the swapped triplet listing, field by field               transpose_is_stable_sort
+   and every in-range history refines the same history of list operations on the abstract matrix
+   (i,j) |-> list of stored values: sp_refines_map without the NoDupKeys hypothesis                    history_with_duplicates
    Well-formedness is preserved in all cases (wfS_step, history_total above -- proved with duplicates allowed).
    Executable instances (a 2x2 storage holding (1,1) three times) and the answers of the Rust executor on the same
    input: Proofs/SparseDupExamples.v.
    ====================================================================================================== *)
-From OV Require Import Proofs.SparseDup Proofs.SparseDupOps Proofs.SparseDupExamples.
+From OV Require Import Proofs.SparseDup Proofs.SparseDupOps Proofs.SparseDupHist Proofs.SparseDupTranspose Proofs.SparseDupExamples.
 
 (* the list of the values stored for (i,j), read off to_triplets: the values of the triplets (i, j, _) in the order of the listing *)
 Theorem dvals_listing : forall (A : Arith) (s : sparse A) i j, j < sp_cols s ->
@@ -180,6 +183,48 @@ Print Assumptions transpose_duplicates.
 Example transpose_duplicates_nonvacuous :
   wfS dup_s /\ 1 < sp_rows dup_s /\ 1 < sp_cols dup_s /\ length (dvals dup_s 1 1) = 3 /\ ~ NoDupKeys dup_s.
 Proof. split; [exact dup_s_wf|]. split; [cbn; lia|]. split; [cbn; lia|]. split; [reflexivity|exact dup_s_has_duplicates]. Qed.
+
+(* transpose is the STABLE sort by row of the swapped listing: the triplet listing of the result, and the result itself (all six fields), are those of from_triplets on the swapped listing *)
+Theorem transpose_is_stable_sort : forall (A : Arith) (s : sparse A), wfS s ->
+  exists s', sp_transpose s = Ok s' /\ wfS s' /\ sp_rows s' = sp_cols s /\ sp_cols s' = sp_rows s /\
+    ents s' = sort_by_col (map tswap (ents s)) /\
+    sp_from_triplets (sp_cols s) (sp_rows s) (map tswap (ents s)) = Ok s'.
+Proof. intros A s. exact (transpose_is_stable_sort_lemma s). Qed.
+Check transpose_is_stable_sort : forall (A : Arith) (s : sparse A), wfS s ->
+  exists s', sp_transpose s = Ok s' /\ wfS s' /\ sp_rows s' = sp_cols s /\ sp_cols s' = sp_rows s /\
+    ents s' = sort_by_col (map tswap (ents s)) /\
+    sp_from_triplets (sp_cols s) (sp_rows s) (map tswap (ents s)) = Ok s'.
+Print Assumptions transpose_is_stable_sort.
+Example transpose_is_stable_sort_nonvacuous :
+  wfS dup_s /\ 1 < sp_rows dup_s /\ 1 < sp_cols dup_s /\ length (dvals dup_s 1 1) = 3 /\ ~ NoDupKeys dup_s.
+Proof. split; [exact dup_s_wf|]. split; [cbn; lia|]. split; [cbn; lia|]. split; [reflexivity|exact dup_s_has_duplicates]. Qed.
+
+(* P2 without duplicate-freeness: every in-range history on ANY well-formed storage returns and refines the same history of list operations (insert: replace the head; scale: map; transpose: swap) on the abstract matrix (i,j) |-> list of stored values; lookup = head, dense entry = last, product entry = sum of the final list *)
+Theorem history_with_duplicates : forall (A : Arith) (ops : list (sop A)) (s : sparse A), wfS s ->
+  ops_ok (sp_rows s) (sp_cols s) ops ->
+  exists s' D, sp_run ops s = Ok s' /\ wfS s' /\
+    (sp_rows s', sp_cols s') = dims_after (sp_rows s) (sp_cols s) ops /\
+    sp_to_dense s' = Ok D /\
+    forall i j, i < sp_rows s' -> j < sp_cols s' ->
+      dvals s' i j = dspec_run ops (dabs s) i j /\
+      sp_get s' i j = Ok (hd_error (dspec_run ops (dabs s) i j)) /\
+      mget D i j = Ok (last (dspec_run ops (dabs s) i j) (@Arith.zero A)) /\
+      sp_entry s' i j = suml (dspec_run ops (dabs s) i j).
+Proof. intros A ops s. exact (history_with_duplicates_lemma ops s). Qed.
+Check history_with_duplicates : forall (A : Arith) (ops : list (sop A)) (s : sparse A), wfS s ->
+  ops_ok (sp_rows s) (sp_cols s) ops ->
+  exists s' D, sp_run ops s = Ok s' /\ wfS s' /\
+    (sp_rows s', sp_cols s') = dims_after (sp_rows s) (sp_cols s) ops /\
+    sp_to_dense s' = Ok D /\
+    forall i j, i < sp_rows s' -> j < sp_cols s' ->
+      dvals s' i j = dspec_run ops (dabs s) i j /\
+      sp_get s' i j = Ok (hd_error (dspec_run ops (dabs s) i j)) /\
+      mget D i j = Ok (last (dspec_run ops (dabs s) i j) (@Arith.zero A)) /\
+      sp_entry s' i j = suml (dspec_run ops (dabs s) i j).
+Print Assumptions history_with_duplicates.
+Example history_with_duplicates_nonvacuous :   (* six steps on dup_s: two overwrites of the tripled position, a transposition, a scaling, an overwrite and a fresh insertion *)
+  wfS dup_s /\ ops_ok (sp_rows dup_s) (sp_cols dup_s) dup_ops /\ ~ NoDupKeys dup_s /\ length dup_ops = 6.
+Proof. split; [exact dup_s_wf|]. split; [exact dup_ops_ok|]. split; [exact dup_s_has_duplicates|reflexivity]. Qed.
 
 (* ---------------- the later imports of Props/C07.v (rounding half): they shadow [zero], [add], ... by the float ones ---------------- *)
 From Coq Require Import Reals Lra Lia.
